@@ -59,7 +59,7 @@ func init() {
 		pkgPath:   rgPostGRPC, // small package: main() loads it with all dependencies from source; the area itself loads everything in one call
 		module:    "RespGuard",
 		namespace: "Pandora.Gen.RespGuard",
-		imports:   []string{"Pandora.Model.C10Ns"},
+		imports:   []string{"Pandora.Model.C10Ns", "Pandora.Model.C19Vars"},
 		extra:     respGuardExtra,
 	}
 }
@@ -794,7 +794,9 @@ func respGuardExtra(t *tr) string {
 	b.WriteString("/-- every explicit `panic(..)` / `.Panic(..)` call of the scanned files: `file|func|argument` -/\ndef explicitPanics : List String := " + leanStrList(panics) + "\n\n")
 	b.WriteString("/-- every type assertion without comma-ok (type switches excluded): `file|func|expression` -/\ndef uncheckedAssertions : List String := " + leanStrList(asserts) + "\n\n")
 	b.WriteString("/-- every index or slice expression on a string / slice / array / pointer to array: `file|func|expression` -/\ndef indexings : List String := " + leanStrList(idx) + "\n\n")
-	b.WriteString("/-- every write `m[k] = v` to a map that is not created (make / literal / maps.Clone) in the same function: `file|func|expression` -/\ndef mapWritesWithoutMake : List String := " + leanStrList(mapw) + "\n")
+	b.WriteString("/-- every write `m[k] = v` to a map that is not created (make / literal / maps.Clone) in the same function: `file|func|expression` -/\ndef mapWritesWithoutMake : List String := " + leanStrList(mapw) + "\n\n")
+	// round 3: the code that reads response-derived variables (area_respguard_vars.go)
+	b.WriteString(respguardVarsExtra(t))
 	return b.String()
 }
 
